@@ -95,7 +95,9 @@ def r02_1(ctx):
     ctx.ob("R02.1", "from_reader->from_slice", fs.id in prog.reachable_fns([fr.id]), fr.loc(), "from_reader parses through from_slice")
     # Read::new_in: the validation is controlled by the flag and its result stored in next_invalid_utf8
     ni = prog.find("Read::new_in")
-    uses = [x for f in prog.with_closures(ni) for b, t in f.calls() if callee_is(t, "from_utf8") for x in [t]]
+    bodies = list(prog.with_closures(ni))
+    bodies += [prog.fns[t["callee"]] for f in list(bodies) for b, t in f.calls() if t["callee"] in prog.fns and prog.fns[t["callee"]].crate == "sonic_rs" and prog.fns[t["callee"]].file == ni.file]
+    uses = [x for f in bodies for b, t in f.calls() if callee_is(t, "from_utf8") for x in [t]]
     ctx.ob("R02.1", "Read::new_in:validates", bool(uses), ni.loc(), "Read::new_in runs the UTF-8 validator over the whole input when asked")
 
 
